@@ -8,8 +8,11 @@
          001  logical segment  bits 4..2 logical type (0 class, 1 instance, 2 member,
                                3 connection point, 4 attribute, 5 special, 6 service, 7 reserved),
                                bits 1..0 format (00 8-bit, 01 16-bit, 10 32-bit, 11 RESERVED);
-                               in a padded path a 00 pad byte precedes 16- and 32-bit values;
-                               32-bit only for instance / member / connection point
+                               in a padded path a 00 pad byte precedes 16- and 32-bit values.
+                               (The specification reserves the 32-bit format to instance and
+                               connection point; Logix uses it for member ids (0x2A) and property C09
+                               quantifies class/instance/attribute/member values to 2^32-1, so the
+                               parser reads it for the types 0..4 and leaves that restriction out.)
          100  data segment     0x80 simple data (length in 16-bit words), 0x91 ANSI extended symbol
                                (length in characters, 00 pad after an odd number of characters)
        It rejects odd total length, non-byte values, missing or non-zero pads, reserved formats,
@@ -33,7 +36,10 @@ Inductive sseg :=
 Definition take (n : nat) (bs : list Z) : option (list Z * list Z) :=
   if Nat.leb n (List.length bs) then Some (firstn n bs, skipn n bs) else None.
 
-Definition parse_logical (b : Z) (r : list Z) : option (sseg * list Z) :=
+(* [f32] = the format code read as "32-bit value follows": 2 in CIP.  The parser of the
+   specification is [parse_padded_epath] = [parse_padded_epath_with 2]; other codes exist only so
+   that a FAILED check can be classified (what would a reader see if it took 0b11 for 32-bit?). *)
+Definition parse_logical (f32 : Z) (b : Z) (r : list Z) : option (sseg * list Z) :=
   let lt := (b / 4) mod 8 in
   let fmt := b mod 4 in
   if fmt =? 0 then
@@ -44,8 +50,8 @@ Definition parse_logical (b : Z) (r : list Z) : option (sseg * list Z) :=
     if lt <=? 4 then
       match r with 0 :: lo :: hi :: r' => Some (SLogical lt (lo + 256 * hi), r') | _ => None end
     else None
-  else if fmt =? 2 then
-    if (1 <=? lt) && (lt <=? 3) then
+  else if fmt =? f32 then
+    if lt <=? 4 then
       match r with
       | 0 :: b0 :: b1 :: b2 :: b3 :: r' => Some (SLogical lt (le_dec [b0; b1; b2; b3]), r')
       | _ => None
@@ -107,21 +113,21 @@ Definition parse_data (b : Z) (r : list Z) : option (sseg * list Z) :=
     end
   else None.
 
-Definition parse_seg (b : Z) (r : list Z) : option (sseg * list Z) :=
+Definition parse_seg (f32 : Z) (b : Z) (r : list Z) : option (sseg * list Z) :=
   let st := b / 32 in
   if st =? 0 then parse_port b r
-  else if st =? 1 then parse_logical b r
+  else if st =? 1 then parse_logical f32 b r
   else if st =? 4 then parse_data b r
   else None.
 
-Fixpoint parse_segs (fuel : nat) (bs : list Z) : option (list sseg) :=
+Fixpoint parse_segs (f32 : Z) (fuel : nat) (bs : list Z) : option (list sseg) :=
   match bs with
   | [] => Some []
   | b :: r =>
       match fuel with
       | O => None
-      | S f => match parse_seg b r with
-               | Some (s, r') => match parse_segs f r' with
+      | S f => match parse_seg f32 b r with
+               | Some (s, r') => match parse_segs f32 f r' with
                                  | Some l => Some (s :: l)
                                  | None => None
                                  end
@@ -130,19 +136,22 @@ Fixpoint parse_segs (fuel : nat) (bs : list Z) : option (list sseg) :=
       end
   end.
 
-Definition parse_padded_epath (bs : list Z) : option (list sseg) :=
-  if bytes_ok bs && Nat.even (List.length bs) then parse_segs (List.length bs) bs else None.
+Definition parse_padded_epath_with (f32 : Z) (bs : list Z) : option (list sseg) :=
+  if bytes_ok bs && Nat.even (List.length bs) then parse_segs f32 (List.length bs) bs else None.
+Definition FORMAT_32BIT : Z := 2.        (* CIP Vol 1 C-1.4.2: 00 8-bit, 01 16-bit, 10 32-bit, 11 reserved *)
+Definition parse_padded_epath : list Z -> option (list sseg) := parse_padded_epath_with FORMAT_32BIT.
 
 (* a path preceded by its size in 16-bit words (and, in Unconnected Send / Forward Close, a pad byte) *)
-Definition parse_counted (pad_length : bool) (bs : list Z) : option (list sseg) :=
+Definition parse_counted_with (f32 : Z) (pad_length : bool) (bs : list Z) : option (list sseg) :=
   match bs with
   | [] => None
   | w :: r =>
       match (if pad_length then match r with 0 :: b => Some b | _ => None end else Some r) with
       | None => None
-      | Some body => if len body =? 2 * w then parse_padded_epath body else None
+      | Some body => if len body =? 2 * w then parse_padded_epath_with f32 body else None
       end
   end.
+Definition parse_counted : bool -> list Z -> option (list sseg) := parse_counted_with FORMAT_32BIT.
 
 (* ================================================================ (2) intended reading *)
 (* names of the logical types a caller may use, with their CIP logical-type numbers *)
@@ -156,9 +165,8 @@ Definition spec_port_names : list (text * Z) :=
    (txt "dnet", 2); (txt "cnet", 2); (txt "dh485-a", 2); (txt "dh485-b", 3)].
 Definition SYMBOL_CLASS : Z := 107.      (* 0x6B, Logix Symbol object *)
 
-(* largest value a logical type may carry: 32 bits for instance / member / connection point,
-   16 bits otherwise *)
-Definition ltype_limit (lt : Z) : Z := if (1 <=? lt) && (lt <=? 3) then 4294967296 else 65536.
+(* largest value a logical segment may carry (exclusive) *)
+Definition LOGICAL_LIMIT : Z := 4294967296.
 
 Definition spec_octet (o : text) : bool :=
   isdigit o && Nat.leb (List.length o) 3
@@ -196,9 +204,9 @@ Definition denote (s : seg) : option sseg :=
       | None => None
       | Some lt =>
           match v with
-          | LInt z => if (0 <=? z) && (z <? ltype_limit lt) then Some (SLogical lt z) else None
+          | LInt z => if (0 <=? z) && (z <? LOGICAL_LIMIT) then Some (SLogical lt z) else None
           | LBytes b =>
-              if bytes_ok b && ((len b =? 1) || (len b =? 2) || ((len b =? 4) && (ltype_limit lt =? 4294967296)))
+              if bytes_ok b && ((len b =? 1) || (len b =? 2) || (len b =? 4))
               then Some (SLogical lt (le_dec b)) else None
           end
       end
@@ -241,7 +249,9 @@ Definition name_char (c : Z) : bool :=
   (0 <=? c) && (c <? 128) && negb (c =? 46) && negb (c =? 91) && negb (c =? 58).
 Definition wf_name (n : text) : bool :=
   forallb name_char n && (1 <=? len n) && (len n <=? 255).
-Definition wf_index (limit : Z) (ds : digits) : bool := digits_ok ds && (dval ds <? limit).
+(* a decimal index: at most 4300 digits (Python refuses longer decimal strings) *)
+Definition wf_index (limit : Z) (ds : digits) : bool :=
+  digits_ok ds && (len ds <=? 4300) && (dval ds <? limit).
 Definition wf_level (limit : Z) (l : level) : bool :=
   wf_name (lv_name l) && forallb (wf_index limit) (lv_idx l).
 Definition wf_tagpath (limit : Z) (p : tagpath) : bool :=
